@@ -650,6 +650,20 @@ fn pair_requests(a: &Rose, b: &Rose, rng: &mut Rng, q: &mut Q, rep: &mut Report,
         q.push("sp\tkf2".into(), Kind::Kf(kf.clone()));
         let cmp = fresh(a).compare_topologies(&fresh(b));
         q.push("sp\tcmp".into(), Kind::Cmp(cmp.as_ref().map(|c| (c.rf, c.norm_rf, c.weighted_rf, c.branch_score)).map_err(|e| format!("err {}", crate::real::err_kind(e)))));
+        // the SAME object as receiver and argument (the diagonal of an all-against-all table): zero, and the object is unharmed
+        {
+            let obj = fresh(a);
+            let w = obj.weighted_robinson_foulds(&obj).map(|v| v.to_bits()).map_err(|_| ());
+            let k = obj.khuner_felsenstein(&obj).map(|v| v.to_bits()).map_err(|_| ());
+            let parts_after = obj.get_partitions().map(|p| p.len()).map_err(|_| ());
+            let parts_fresh = fresh(a).get_partitions().map(|p| p.len()).map_err(|_| ());
+            let w_ref = fresh(a).weighted_robinson_foulds(&fresh(a)).map(|v| v.to_bits()).map_err(|_| ());
+            let k_ref = fresh(a).khuner_felsenstein(&fresh(a)).map(|v| v.to_bits()).map_err(|_| ());
+            rep.count("same_object_as_both_arguments");
+            if w != w_ref || k != k_ref || parts_after != parts_fresh || (w.is_ok() && w != Ok(0f64.to_bits())) {
+                rep.oracle("wrf-self", "same-object-as-receiver-and-argument", &format!("real.build\tapi\t{}\t0\nsp.self", a.canon()), &format!("wrf {w:?} (two copies: {w_ref:?}) kf {k:?} (two copies: {k_ref:?}) partitions afterwards {parts_after:?} (fresh {parts_fresh:?})"));
+            }
+        }
         q.push("sp\tbranches\t0".into(), Kind::Branches(real_branches(&fresh(a), &fresh(b), false)));
         q.push("sp\tbranches\t1".into(), Kind::Branches(real_branches(&fresh(a), &fresh(b), true)));
         let sig_case = format!("{case}\nsp\twrf");
